@@ -13,7 +13,8 @@ MODELLED = ("Parse/Declarator.v is a hand-written mirror of _parse_cv_ptr_or_fn 
             "array / parameter list, token re-injection, reference suffix), _parse_array_type, _parse_parameters/_parse_parameter and the variable "
             "head, over base types `[const] [volatile] NAME|void`; token push-back is list append. The five mirrored functions are pinned by an AST digest "
             "(translate/gen_declpin.py fails closed on any edit) and the token sets they test for are regenerated and compared with the model's "
-            "(declarator_code_is_the_modelled_one). NOT modelled (covered by the context search "
+            "(declarator_code_is_the_modelled_one). _parse_pqname without template arguments (typename, class keys, leading '::', qualified names, "
+            "fundamental groups) is modelled in Parse/PQName.v over the regenerated keyword sets and tied by calling the real method. NOT modelled (covered by the context search "
             "only): qualified / templated / fundamental-group / decltype base names, the nonptr_fn path of template arguments and the "
             "type-or-value trial parse, parameter packs, defaults, trailing return types, calling conventions, member pointers, the dispatch in "
             "_parse_decl that chooses between variable, function, typedef, field")
@@ -168,8 +169,110 @@ def correspond_alias(ctx, corr):
             corr.disagreements.append(dict(case=dict(kind='corr-alias', tokens=toks), model=str(m)[:300], impl=str(r)[:300], what="alias: " + msg))
 
 
+PQ_WORDS = ['Foo', 'Bar', 'ns', 'T', '::', '::', 'unsigned', 'long', 'int', 'char', 'short', 'signed', 'double', 'float', 'void', 'bool', 'wchar_t',
+            'struct', 'class', 'union', 'enum', 'typename', 'const', '*', '&', '(', 'x', ';', '<', 'final', 'auto', 'operator', 'decltype', 'template']
+
+
+def real_pqname(strs):
+    toks = [impl.mk_tok(decl.tok_type(s), s) for s in strs]
+    p = impl.parser_over(toks)
+    try:
+        q, op = p._parse_pqname(None, compound_ok=True, fund_ok=True)
+    except (impl.CxxParseError, EOFError):
+        return ('err',)
+    except (AssertionError, IndexError, KeyError, AttributeError):
+        return ('other',)
+    if op:
+        return ('other',)
+    segs = []
+    for sg in q.segments:
+        if isinstance(sg, T.FundamentalSpecifier):
+            segs.append(('fund', tuple(sg.name.split())))
+        elif isinstance(sg, T.NameSpecifier):
+            if sg.specialization is not None:
+                return ('other',)
+            segs.append(('root',) if sg.name == '' else ('name', sg.name))
+        else:
+            return ('other',)
+    return ('ok', q.has_typename, tuple((q.classkey or '').split()), segs, len(p.lex.tokbuf))
+
+
+def gen_pqname(rng):
+    r = rng.random()
+    pre = []
+    if r < 0.15:
+        pre = ['typename']
+    elif r < 0.35:
+        pre = rng.choice([['struct'], ['class'], ['union'], ['enum'], ['enum', 'class'], ['enum', 'struct']])
+    if rng.random() < 0.35 and not pre:
+        n = rng.choice([1, 1, 2, 3, 4])
+        body = [rng.choice(['unsigned', 'long', 'int', 'char', 'short', 'signed', 'double', 'float']) for _ in range(n)] if rng.random() < 0.7 \
+            else [rng.choice(['void', 'bool', 'wchar_t', 'char16_t', 'nullptr_t'])]
+    else:
+        body = (['::'] if rng.random() < 0.25 else [])
+        names = [rng.choice(['Foo', 'Bar', 'ns', 'T', 'a']) for _ in range(rng.choice([1, 1, 2, 3]))]
+        for i, nm in enumerate(names):
+            if i:
+                body.append('::')
+            body.append(nm)
+        if rng.random() < 0.15:
+            body += ['::', rng.choice(['int', 'void', 'unsigned'])]
+    tail = [rng.choice(['x', '*', '&', '(', ';', 'const', ',', ')', 'int', 'Foo'])]
+    return pre + body + tail
+
+
+def correspond_pqname(ctx, corr):
+    """qualified names and fundamental groups: extracted parse_pqname vs the real _parse_pqname on the same token lists"""
+    rng = ctx.rng
+    cases = []
+    for _ in range(ctx.scale(1500, 30000)):
+        toks = gen_pqname(rng)
+        if rng.random() < 0.3:
+            toks = [rng.choice(PQ_WORDS) for _ in range(rng.choice([1, 2, 3, 5]))] if rng.random() < 0.4 else (mutate(rng, toks) or ['x'])
+            toks = [t for t in toks if t not in ('...', '[', ']', ')', '3', '&&', 'volatile')] or ['x']
+        cases.append(toks)
+    lines, nms = [], []
+    for toks in cases:
+        names = decl.Names()
+        lines.append([97] + decl.enc_tokens(toks, names))
+        nms.append(names)
+    outs = run_driver(lines)
+    for toks, o, names in zip(cases, outs, nms):
+        corr.cases += 1
+        if o[0] == 0:
+            kl = o[3]
+            key = tuple(impl.TT[x] for x in o[4:4 + kl])
+            i = 4 + kl
+            cnt = o[i]
+            i += 1
+            segs = []
+            for _ in range(cnt):
+                if o[i] == 0:
+                    segs.append(('root',))
+                    i += 1
+                elif o[i] == 1:
+                    segs.append(('name', names.rev.get(o[i + 1], '?')))
+                    i += 2
+                else:
+                    n = o[i + 1]
+                    segs.append(('fund', tuple(impl.TT[x] for x in o[i + 2:i + 2 + n])))
+                    i += 2 + n
+            m = ('ok', bool(o[2]), key, segs, o[1])
+        else:
+            m = ('err', o[1])
+        r = real_pqname(toks)
+        k = "pqname:" + (m[0] if m[0] == 'ok' else 'err%d' % m[1]) + "/" + r[0]
+        corr.dist[k] = corr.dist.get(k, 0) + 1
+        if r[0] == 'other' or m == ('err', 4):
+            continue
+        if (m[0] == 'ok') != (r[0] == 'ok') or (m[0] == 'ok' and m != r):
+            corr.disagreements.append(dict(case=dict(kind='corr-pqname', tokens=toks), model=str(m), impl=str(r),
+                                           what="qualified name `%s`: model %s, implementation %s" % (' '.join(toks), m, r)))
+
+
 def correspond(ctx):
     corr = Corr()
+    correspond_pqname(ctx, corr)
     correspond_alias(ctx, corr)
     cases = corr_cases(ctx)
     ms = model_var([c[1] for c in cases])
